@@ -38,7 +38,8 @@ def main(argv):
         if len(argv) > 2 and not argv[2].startswith("-"):
             descs = [d for d in descs if d["name"] in argv[2].split(",")]
         rc = 0
-        for u in l3.run_descs(descs, canaries=(("head", "loop_head", "after_loop") if "--canary" in argv else ())):
+        mode = "success" if "--success" in argv else ("err" if "--err" in argv else "full")
+        for u in l3.run_descs(descs, canaries=(("head", "loop_head", "after_loop") if "--canary" in argv else ()), mode=mode, unit_span="--unitspan" in argv):
             bad = [o for o in u.obligations if not o["ok"]]
             print(f"{u.name}: {u.status} {u.reason[:300]} fns={len(u.obligations)} wall={u.wall_s:.1f}s smt={u.smt_ms}ms canaries={u.canaries}")
             for f in u.failures[:8]:
